@@ -36,9 +36,9 @@ def run(tier):
     check = core.Check("C17", tier)
     wp = core.WorkerPool(core.build_worker())
     # design level: Format keeps the structure and is idempotent on the layout
-    cfg = ("SPECIFICATION Spec\nCONSTANT Observers <- MCObs\nCONSTANTS MaxLen = 4 WithFormat = TRUE\n"
+    cfg = ("SPECIFICATION Spec\nCONSTANT Observers <- MCObs\nCONSTANT Faulty <- MCFaulty\nCONSTANTS MaxLen = 4 WithFormat = TRUE\n"
            "INVARIANTS SameAsFresh\nPROPERTIES StructureKept FormatIdempotent\nCHECK_DEADLOCK FALSE\n")
-    mc = '---- MODULE MCPipeline ----\nEXTENDS Pipeline\nMCObs == {"print", "dump11"}\n====\n'
+    mc = '---- MODULE MCPipeline ----\nEXTENDS Pipeline\nMCObs == {"print", "dump11"}\nMCFaulty == {}\n====\n'
     r = core.tlc("MCPipeline", cfg, files={"MCPipeline.tla": mc})
     check.add_tlc("Pipeline(with Format, maxlen=4)", r)
     n = 800 if tier == "quick" else 8000
